@@ -4,31 +4,40 @@
    A record of packet p is RL abstract bytes <<p, 1>> .. <<p, RL>>, the last one being the newline; a corrupted byte is <<p, 0>>.
    Environment: the writer appends the record of the next packet in arbitrary chunks (SendChunk; a crash is a writer that never
    continues), Corrupt flips one byte of a complete record, and every Receive sees the file cut short at an arbitrary length
-   vis (the file as it is at the moment of the read).                                                                   *)
+   vis (the file as it is at the moment of the read).
+   Packet ids: a reader delivers a record only if its ID was not delivered before.  UniqueIds = TRUE is the required design (every
+   packet gets an id no other packet has; the id of packet p is then written p); UniqueIds = FALSE lets the environment pick any id
+   of the finite domain Ids for each packet (an id generator that wraps around, such as a clock value modulo 10^8): TLC then
+   refutes NothingLost - a completed, intact packet whose id repeats an earlier one is never delivered.                  *)
 EXTENDS Naturals, Sequences, FiniteSets, TLC
 
 CONSTANTS NP,        \* packets 1..NP are sent in this order
           RL,        \* abstract bytes per record, newline included
           Readers,
-          MaxCorrupt
+          MaxCorrupt,
+          Ids,        \* the id domain when ids are not unique
+          UniqueIds   \* BOOLEAN
 
 VARIABLES file,      \* sequence of abstract bytes
           nextSend,  \* next packet to start sending
           inflight,  \* <<p, k>>: packet being appended and bytes written so far (<<0,0>>: none)
           told, seen, got,
-          ncorrupt
-vars == <<file, nextSend, inflight, told, seen, got, ncorrupt>>
+          ncorrupt,
+          idof       \* packet -> its id (0: not yet created)
+vars == <<file, nextSend, inflight, told, seen, got, ncorrupt, idof>>
 
-Init == /\ file = <<>> /\ nextSend = 1 /\ inflight = <<0, 0>> /\ ncorrupt = 0
+Init == /\ file = <<>> /\ nextSend = 1 /\ inflight = <<0, 0>> /\ ncorrupt = 0 /\ idof = [p \in 1..NP |-> 0]
         /\ told = [r \in Readers |-> 0] /\ seen = [r \in Readers |-> {}] /\ got = [r \in Readers |-> <<>>]
 
 SendBegin == /\ inflight[1] = 0 /\ nextSend <= NP /\ inflight' = <<nextSend, 0>> /\ nextSend' = nextSend + 1
+             /\ IF UniqueIds THEN idof' = [idof EXCEPT ![nextSend] = nextSend]
+                ELSE \E i \in Ids : idof' = [idof EXCEPT ![nextSend] = i]
              /\ UNCHANGED <<file, told, seen, got, ncorrupt>>
 
 SendChunk(k) == /\ inflight[1] # 0 /\ k >= 1 /\ inflight[2] + k <= RL
                 /\ file' = file \o [i \in 1..k |-> <<inflight[1], inflight[2] + i>>]
                 /\ inflight' = IF inflight[2] + k = RL THEN <<0, 0>> ELSE <<inflight[1], inflight[2] + k>>
-                /\ UNCHANGED <<nextSend, told, seen, got, ncorrupt>>
+                /\ UNCHANGED <<nextSend, told, seen, got, ncorrupt, idof>>
 
 NComplete == IF inflight[1] = 0 THEN Len(file) \div RL ELSE (Len(file) - inflight[2]) \div RL
 \* flip one payload byte (never the newline) of a complete record
@@ -36,7 +45,7 @@ Corrupt(j, b) == /\ ncorrupt < MaxCorrupt /\ j \in 1..NComplete /\ b \in 1..(RL 
                  /\ file[(j - 1) * RL + b][2] # 0
                  /\ file' = [file EXCEPT ![(j - 1) * RL + b] = <<@[1], 0>>]
                  /\ ncorrupt' = ncorrupt + 1
-                 /\ UNCHANGED <<nextSend, inflight, told, seen, got>>
+                 /\ UNCHANGED <<nextSend, inflight, told, seen, got, idof>>
 
 \* receive(): scan complete lines of the visible prefix from the reader's offset
 RECURSIVE Scan(_, _, _, _, _)
@@ -45,7 +54,7 @@ Scan(view, o, t, s, g) ==
   ELSE LET line == SubSeq(view, o + 1, o + RL)
            pkt == line[1][1]
            ok == \A i \in 1..RL : line[i] = <<pkt, i>>                        \* checksum: every byte intact
-       IN IF ok /\ pkt \notin s THEN Scan(view, o + RL, o + RL, s \cup {pkt}, Append(g, pkt))
+       IN IF ok /\ idof[pkt] \notin s THEN Scan(view, o + RL, o + RL, s \cup {idof[pkt]}, Append(g, pkt))
           ELSE Scan(view, o + RL, o + RL, s, g)                              \* corrupt (or duplicate id): skipped, offset advances
 
 Receive(r, vis) == /\ vis \in told[r]..Len(file)
@@ -53,7 +62,7 @@ Receive(r, vis) == /\ vis \in told[r]..Len(file)
                       /\ told' = [told EXCEPT ![r] = res.told]
                       /\ seen' = [seen EXCEPT ![r] = res.seen]
                       /\ got' = [got EXCEPT ![r] = res.got]
-                   /\ UNCHANGED <<file, nextSend, inflight, ncorrupt>>
+                   /\ UNCHANGED <<file, nextSend, inflight, ncorrupt, idof>>
 
 Writer == SendBegin \/ \E k \in 1..RL : SendChunk(k)
 Next == \/ Writer
